@@ -570,10 +570,16 @@ def unpack_collections(*args, traverse=True):
                     tok, typ, Dict({_unpack(k): _unpack(v) for k, v in expr.items()})
                 )
             elif dataclasses.is_dataclass(expr) and not isinstance(expr, type):
+                # By keyword, so that keyword-only fields work; fields that are not
+                # constructor arguments (init=False) cannot be passed at all
                 tsk = Task(
                     tok,
                     typ,
-                    *[_unpack(getattr(expr, f.name)) for f in dataclasses.fields(expr)],
+                    **{
+                        f.name: _unpack(getattr(expr, f.name))
+                        for f in dataclasses.fields(expr)
+                        if f.init
+                    },
                 )
             elif is_namedtuple_instance(expr):
                 tsk = Task(tok, typ, *[_unpack(i) for i in expr])
